@@ -207,6 +207,11 @@ func buildTree(t *rapid.T) *tree {
 			stats.Class(fmt.Sprintf("build_refused_code%d_ntx%d_ext%v", code, len(txs), parent == head))
 			continue
 		}
+		if _, dup := tr.byHash[bh.Hash]; dup {
+			// the same content drawn twice gives the very same block (same hash): not a new tree node
+			stats.Class("build_identical_block_skipped")
+			continue
+		}
 		blk := &types.Block{Header: bh, Transactions: txs}
 		raw, err := types.MarshalBlock(blk)
 		if err != nil {
